@@ -125,13 +125,25 @@ impl<'a, R, C> Cache<super::Issues<'a, R>, C> {
 
     /// Remove the given `id` from the [`super::Issues`] storage, and
     /// removing the entry from the `cache`.
+    ///
+    /// Nb. Only the signer's reference to the issue is removed from storage. If
+    /// other peers still hold the issue, it still evaluates from their references,
+    /// and the `cache` keeps what that evaluation yields.
     pub fn remove<G>(&mut self, id: &IssueId, signer: &Device<G>) -> Result<(), super::Error>
     where
         G: crypto::signature::Signer<crypto::Signature>,
         R: ReadRepository + SignRepository + cob::Store<Namespace = NodeId>,
-        C: Remove<Issue>,
+        C: Update<Issue> + Remove<Issue>,
     {
         self.store.remove(id, signer)?;
+        if let Ok(Some(issue)) = self.store.get(id) {
+            self.update(&self.rid(), id, &issue)
+                .map_err(|e| super::Error::CacheUpdate {
+                    id: *id,
+                    err: e.into(),
+                })?;
+            return Ok(());
+        }
         self.cache
             .remove(id)
             .map_err(|e| super::Error::CacheRemove {
